@@ -326,30 +326,42 @@ Definition c15_connect (toks : list (list N)) : list (list N) :=
 (* spec oracle on the bytes the implementation wrote: can they be split into well-formed
    messages (selection, then optionally authentication, then optionally request)?
    in: [ak] client-bytes.  out: [1|0] *)
-(* C15 end to end: the endpoint with a SOCKS5 upstream. in: [ext; with_creds; method; auth status; reply code; atyp; tail length; _]
+(* C15 end to end: the endpoint with a SOCKS5 upstream. in: [ext; with_creds; method; auth status; reply code; atyp; tail length; _;
+   destination kind; request form (0 CONNECT :443 | 1 GET without a port = 80 | 2 GET :8080 | 3 GET someone@...:8080);
+   credentials (0 u1:p1 | 1 :p1 | 2 u1: | 3 u1:p1 and a User-Agent field with an empty value)]
    out: [status; X-Warning; tunnel intact] bytes-the-server-received *)
 Definition c15_front (toks : list (list N)) : list (list N) :=
   match toks with
-  | (ext :: creds :: method :: st :: code :: atyp :: tail_n :: _ :: dest_kind) :: _ =>
-    let dk := match dest_kind with k :: _ => k | [] => 0 end in
+  | (ext :: creds :: method :: st :: code :: atyp :: tail_n :: _ :: more) :: _ =>
+    let dk := nth 0 more 0 in
+    let form := nth 1 more 0 in
+    let cv := nth 2 more 0 in
+    let port := if form =? 1 then 80 else if (form =? 2) || (form =? 3) then 8080 else 443 in
     let name := [101; 120; 97; 109; 112; 108; 101; 46; 111; 114; 103] in          (* example.org *)
     let dest := if dk =? 1 then DIp [203; 0; 113; 9]
                 else if dk =? 2 then DIp [32; 1; 13; 184; 0; 0; 0; 0; 0; 0; 0; 0; 0; 0; 0; 7]
                 else if dk =? 3 then DIp [0; 0; 0; 0; 0; 0; 0; 0; 0; 0; 255; 255; 203; 0; 113; 9]
                 else DDomain name in
-    let tok64 := [100; 84; 69; 54; 99; 68; 69; 61] in                              (* dTE6cDE= *)
+    let tok64 := if cv =? 1 then [79; 110; 65; 120]                               (* OnAx = :p1 *)
+                 else if cv =? 2 then [100; 84; 69; 54]                           (* dTE6 = u1: *)
+                 else [100; 84; 69; 54; 99; 68; 69; 61] in                        (* dTE6cDE= = u1:p1 *)
+    (* the client's User-Agent field: "verif-agent", or present with an empty value *)
+    let agent := if cv =? 3 then Some [] else Some [118; 101; 114; 105; 102; 45; 97; 103; 101; 110; 116] in
     let a := if creds =? 0 then ANone
-             else if ext =? 1 then AExt [(1, [108; 111; 99; 97; 108; 104; 111; 115; 116]); (2, [127; 0; 0; 1]);
-                                         (3, [118; 101; 114; 105; 102; 45; 97; 103; 101; 110; 116]); (4, tok64)]
-             else AUserPass [117; 49] [112; 49] in
+             else if ext =? 1 then AExt (make_extended_auth [108; 111; 99; 97; 108; 104; 111; 115; 116] [127; 0; 0; 1]
+                                                            agent (SrcBasic tok64))
+             else match make_auth_basic tok64 with
+                  | Some (u, p) => AUserPass u p
+                  | None => ANone
+                  end in
     let tail := map (fun i => 160 + N.of_nat i) (seq 0 (N.to_nat tail_n)) in
     let bound := if atyp =? 1 then [127; 0; 0; 1] else if atyp =? 4 then repeat 0 16
                  else 9 :: [98; 111; 117; 110; 100; 46; 116; 115; 116] in
     let server := [5; method] ++ (if (method =? 2) || (method =? 128) then [1; st] else [])
                   ++ [5; code; 0; atyp] ++ bound ++ [31; 144] ++ tail in
-    let '(em, o) := connect a dest 443 server in
+    let '(em, o) := connect a dest port server in
     let '(status, warn) := socks_result o in
-    let intact := match o with OTcp => if list_eqb N.eqb (connect_rest a dest 443 server) tail then 1 else 0 | _ => 0 end in
+    let intact := match o with OTcp => if list_eqb N.eqb (connect_rest a dest port server) tail then 1 else 0 | _ => 0 end in
     [[status; warn; intact]; concat (map em_bytes em)]
   | _ => REJECT_TOK
   end.
